@@ -38,7 +38,7 @@ class PackIntMod:
     def unpack(self, bits, pos):
         part = bits[pos:pos + self.bitlen()]
         if part and _secret(part[0]):
-            v = sum(b.v << i for i, b in enumerate(part))
+            v = sum((b.v if _secret(b) else int(b)) << i for i, b in enumerate(part))      # a field may mix circuit bits and plain 0/1
             if not v < self.mod:
                 raise MustRaise("unpacked value %d not below modulus %d" % (v, self.mod))
             return RInt(v)
